@@ -60,5 +60,40 @@ if ! $GO build $OV -tags verif -o $BIN ./checks/$id 2>$SCR/build.log; then
   echo "HARNESS-ERROR build failed for $ID" >&2; exit 2
 fi
 cd /verif
+# Race pass (thorough tier, checks with a RACE marker): the same harness bodies run
+# free under the race detector; a race whose two accesses are both in kraken code
+# fails the check (the cooperative scheduler's hand-offs would hide it otherwise).
+TIER=${VERIF_TIER:-quick}
+for a in "$@"; do case "$a" in quick|thorough) TIER=$a;; esac; done
+if [ -f "$D/RACE" ] && [ "$TIER" = thorough ] && [ -z "${VRT_WORKER:-}" ]; then
+  if (cd $E && $GO build -race $OV -tags verif -o $BIN.race ./checks/$id 2>$SCR/build-race.log); then
+    VRT_FREE=${VERIF_RACE_RUNS:-40} GORACE="halt_on_error=0 log_path=$SCR/race" timeout 900 $BIN.race >/dev/null 2>$SCR/race.stderr
+    python3 - "$SCR" "$ID" <<'PY'
+import glob, re, sys, os, shutil
+scr, pid = sys.argv[1], sys.argv[2]
+bad = []
+for f in glob.glob(scr + '/race.*'):
+    if f.endswith('.stderr'): continue
+    txt = open(f, errors='replace').read()
+    for rep in txt.split('WARNING: DATA RACE')[1:]:
+        rep = rep.split('==================')[0]
+        # first frame (function line + file line) of each of the two access stacks
+        tops = re.findall(r'(?:Read|Write|Previous read|Previous write) at .*?\n\s+(\S+)\n\s+(\S+?):\d+', rep)
+        if len(tops) >= 2 and all(('uber/kraken' in fn and 'Verif' not in fn) for fn, _ in tops[:2]):
+            bad.append(rep)
+if bad:
+    os.makedirs('/verif/replays', exist_ok=True)
+    out = f'/verif/replays/{pid}-datarace.txt'
+    open(out, 'w').write('WARNING: DATA RACE' + '\n==================\nWARNING: DATA RACE'.join(bad[:5]))
+    print(f'VIOLATION property={pid} replay={out}')
+    print('  fingerprint: data race between two kraken accesses in a harness body run free under -race')
+    sys.exit(1)
+print(f'{pid} race pass: no race between kraken accesses')
+PY
+    [ $? -eq 1 ] && exit 1
+  else
+    echo "race pass skipped: -race build failed" >&2
+  fi
+fi
 $BIN "$@"
 exit $?
